@@ -60,6 +60,16 @@ fn err_of(e: RmErr) -> Error {
     }
 }
 
+/// the call was refused with one of the reasons that apply
+fn refused_write(r: &Result<usize, Error>, tr: &Tr, nonce: u64, plen: usize, cap: usize) -> bool {
+    let (ow, inp, exh) = TrOps::<P>::write_refusals(tr, nonce, plen, cap);
+    (ow && *r == Err(Error::State(StateProblem::OneWay))) || (inp && *r == Err(Error::Input)) || (exh && *r == Err(Error::State(StateProblem::Exhausted)))
+}
+fn refused_read(r: &Result<usize, Error>, tr: &Tr, nonce: u64, mlen: usize, cap: usize) -> bool {
+    let (ow, big, small, exh) = TrOps::<P>::read_refusals(tr, nonce, mlen, cap);
+    (ow && *r == Err(Error::State(StateProblem::OneWay))) || (big && *r == Err(Error::Input)) || (small && *r == Err(Error::Decrypt)) || (exh && *r == Err(Error::State(StateProblem::Exhausted)))
+}
+
 fn no_cipher_calls() -> bool {
     unsafe { O_ENC_CALLS[1] == 0 && O_ENC_CALLS[2] == 0 && O_DEC_CALLS[1] == 0 && O_DEC_CALLS[2] == 0 }
 }
@@ -101,8 +111,8 @@ pub fn c09_q_stateful_write() {
                 );
             }
         },
-        Some(e) => {
-            assert!(r == Err(err_of(e)), "C09: wrong error for a refused transport write");
+        Some(_) => {
+            assert!(refused_write(&r, &rm_tr(initiator, oneway), n_send, plen, cap), "C09: wrong error for a refused transport write");
             assert!(ts.sending_nonce() == n_send, "C09: a refused write moved the sending nonce");
             assert!(no_cipher_calls(), "C09: a refused write reached the cipher");
             let j: usize = kani::any();
@@ -160,8 +170,8 @@ pub fn c09_q_stateful_read() {
                 assert!(ts.receiving_nonce() == n_recv, "C09: a rejected read moved the receiving nonce");
             }
         },
-        Some(e) => {
-            assert!(r == Err(err_of(e)), "C09: wrong error for a refused transport read");
+        Some(_) => {
+            assert!(refused_read(&r, &rm_tr(initiator, oneway), n_recv, mlen, cap), "C09: wrong error for a refused transport read");
             assert!(ts.receiving_nonce() == n_recv, "C09: a refused read moved the receiving nonce");
             assert!(no_cipher_calls(), "C09: a refused read reached the cipher");
         },
@@ -199,8 +209,8 @@ pub fn c09_q_stateless_write() {
                 );
             }
         },
-        Some(e) => {
-            assert!(r == Err(err_of(e)), "C09: wrong error for a refused stateless write");
+        Some(_) => {
+            assert!(refused_write(&r, &rm_tr(initiator, oneway), nonce, plen, cap), "C09: wrong error for a refused stateless write");
             assert!(no_cipher_calls(), "C09: a refused stateless write reached the cipher");
             let j: usize = kani::any();
             kani::assume(j < CAP);
@@ -247,8 +257,8 @@ pub fn c09_q_stateless_read() {
                 assert!(r == Err(Error::Decrypt), "C09: rejected message must yield the decrypt error (stateless)");
             }
         },
-        Some(e) => {
-            assert!(r == Err(err_of(e)), "C09: wrong error for a refused stateless read");
+        Some(_) => {
+            assert!(refused_read(&r, &rm_tr(initiator, oneway), nonce, mlen, cap), "C09: wrong error for a refused stateless read");
             assert!(no_cipher_calls(), "C09: a refused stateless read reached the cipher");
         },
     }
